@@ -3,7 +3,7 @@
 From Coq Require Import String.
 From V.Lib Require Import Base Hex.
 From V.Gen Require Import C10Consts.
-From V.C10 Require Import Model Spec Corr Wf PF4 PCs PCont PTop PRegroup PB32a PB32b PB58 PCompl PTop2 PSort PConv Bridge.
+From V.C10 Require Import Model Spec Corr Wf PF4 PCs PCont PTop PRegroup PB32a PB32b PB58 PCompl PTop2 PSort PConv PKeys Bridge.
 From Coq Require Import List.
 Local Open Scope N_scope.
 
@@ -255,6 +255,27 @@ Theorem C10_convert_canonical :
     spec_rebuild a' = a /\ addr_net a' = e /\
     (match a with ARaw _ k _ => spec_shared k = false -> a' = a | AUni _ _ => a' = a end).
 Proof. exact convert_canonical. Qed.
+
+(** ** zcash_keys::encoding (Sapling payment addresses through the shared helper bech32_decode) *)
+
+(** Accepted => the string is exactly the expected lower-case prefix, the separator, lower-case
+    data and the Bech32 checksum: the prefix is matched as written, so no upper-case (or
+    mixed-case) rendering is accepted. *)
+Theorem C10_keys_accept_shape :
+  forall valid hrp s d, existsb is_upper hrp = false -> existsb is_lower hrp = true ->
+    keys_decode_payment_address valid hrp s = Ok d ->
+    exists fes, b32_decode B32 BECH32_CODE_LENGTH s = Some (hrp, fes) /\ s = b32_string B32 hrp fes /\
+                fes_to_bytes fes = Some d /\ len d = 43 /\ existsb is_upper s = false.
+Proof. exact keys_accept_shape. Qed.
+(** Accepted => re-encodes to the very string accepted (no guard: the padding of the final 5-bit
+    group is validated since the second fix commit). *)
+Theorem C10_keys_accept_canonical :
+  forall valid hrp s d, existsb is_upper hrp = false -> existsb is_lower hrp = true ->
+    keys_decode_payment_address valid hrp s = Ok d ->
+    keys_encode_payment_address hrp d = Ok s /\ len d = 43.
+Proof. exact keys_accept_canonical. Qed.
+Theorem C10_keys_decode_total : forall valid hrp s, keys_decode_payment_address valid hrp s <> Panic.
+Proof. exact keys_decode_total. Qed.
 
 (** ** Bridge *)
 
